@@ -104,7 +104,8 @@ func streamEngine(t *testing.T, o *Out, p EngProfile) {
 				for _, pers := range []bool{false, true} {
 					fc := *c
 					fc.FaultAt, fc.FaultPersis = k, pers
-					emit(&fc, "f", false)
+					fc.FaultKind = r.Intn(len(faultErrs))
+					emit(&fc, "f", !pers)
 					o.Count("fault-cases")
 				}
 			}
@@ -119,12 +120,12 @@ func streamEngine(t *testing.T, o *Out, p EngProfile) {
 				}
 			}
 		default:
-			emit(c, "g", i%4 == 0)
+			emit(c, "g", true)
 			// more queries on the same state
 			for j := 0; j < 3; j++ {
 				qc := *c
 				qc.Query = genQuery(r, c.NSs, c.Tuples)
-				emit(&qc, "q", false)
+				emit(&qc, "q", j == 0)
 			}
 		}
 	}
